@@ -320,7 +320,7 @@ func H_C17_copy_nan() {
 func H_C17_results() {
 	vResetDecOpts()
 	c := vNondetString(1, 1, "XY")
-	m, err := NewMapXml([]byte("<r><g><k>1</k><k>2</k><k>3</k></g><g><k>" + c + "</k></g><h><k>9</k></h></r>"))
+	m, err := NewMapXml([]byte("<r><g><k>1</k><k>2</k><k>3</k></g><g><j>J</j><k>" + c + "</k></g><h><k>9</k></h></r>"))
 	vAssert(err == nil, "results: decodes")
 	mark := vMark(map[string]interface{}(m))
 	p1 := []string{"r.g.k", "r.g.*", "r.*.k"}[vChoose(3)]
